@@ -22,6 +22,7 @@ func (fc *FuncCtx) execInstr(fr *Frame, st *State, ins ssa.Instruction) {
 		elem := t.Type().(*types.Pointer).Elem()
 		so := v.tm.SortOf(elem)
 		if fc.isCell(t) {
+			so = fc.cellSort(t)
 			st.cells[t] = v.tm.ZeroOf(so)
 			delete(st.clos, t)
 			fr.vals[t] = Val{Loc: &Loc{Cell: t, Sort: so, GoT: elem, RSort: so}, GoT: t.Type()}
@@ -42,7 +43,11 @@ func (fc *FuncCtx) execInstr(fr *Frame, st *State, ins ssa.Instruction) {
 			return
 		}
 		fc.noteParamMutation(loc)
-		v.store(st, loc, v.asTerm(st, val))
+		x := v.asTerm(st, val)
+		if loc.Cell != nil && len(loc.Path) == 0 && x.Sort != loc.Sort && isSliceSort(loc.Sort) {
+			x = fc.absToRaw(st, x, t.Val.Type(), loc.Sort)
+		}
+		v.store(st, loc, x)
 	case *ssa.UnOp:
 		fc.execUnOp(fr, st, t)
 	case *ssa.BinOp:
